@@ -3,6 +3,7 @@ package main
 import (
 	"fmt"
 	"go/ast"
+	"go/token"
 	"go/types"
 )
 
@@ -134,4 +135,204 @@ func ruleSyncGuards(c *Ctx) {
 		}
 	}
 	_ = types.Typ
+}
+
+// traverse-callback: a callback given to (*Billet).Traverse is called once per *occurrence* of a node, and equal
+// subtrees (two leaves with the same value under one branch) have the same hash. A callback that removes an entry
+// keyed by the node's hash from a container when it meets the node must therefore tolerate not finding it at a later
+// occurrence: a panic whose only condition is "the hash is not in that container" fires on valid data. It is
+// accepted only if it is also conditioned on absence from a second container the callback fills with the hashes
+// it has processed.
+func ruleTraverseCallback(c *Ctx) {
+	n := 0
+	for _, fd := range c.P.AllFuncDecls() {
+		if fd.Decl.Body == nil || !InModule(fd.Obj.Pkg()) {
+			continue
+		}
+		f := c.P.NewFuncCFG(fd)
+		info := f.Info
+		for _, s := range f.CallSites("pkg/core/mpt.(*Billet).Traverse") {
+			if len(s.call.Args) == 0 {
+				continue
+			}
+			lit, ok := ast.Unparen(s.call.Args[0]).(*ast.FuncLit)
+			if !ok || len(lit.Type.Params.List) < 2 || len(lit.Type.Params.List[1].Names) == 0 {
+				continue
+			}
+			node := info.ObjectOf(lit.Type.Params.List[1].Names[0])
+			keyedByHash := func(e ast.Expr) bool { // e mentions <node>.Hash()
+				hit := false
+				ast.Inspect(e, func(x ast.Node) bool {
+					if call, ok := x.(*ast.CallExpr); ok {
+						if se, ok := ast.Unparen(call.Fun).(*ast.SelectorExpr); ok && se.Sel.Name == "Hash" {
+							if id, ok := ast.Unparen(se.X).(*ast.Ident); ok && info.ObjectOf(id) == node {
+								hit = true
+							}
+						}
+					}
+					return !hit
+				})
+				return hit
+			}
+			// containers the callback removes the node's hash from / inserts it into
+			removed, inserted := map[types.Object]bool{}, map[types.Object]bool{}
+			// lookups: variable <- container
+			type lookup struct {
+				pos  token.Pos
+				v    types.Object
+				cont types.Object
+			}
+			var lookups []lookup
+			lookupAt := func(v types.Object, at token.Pos) types.Object { // the latest lookup stored in v before position at
+				var best types.Object
+				var bp token.Pos
+				for _, l := range lookups {
+					if l.v == v && l.pos < at && l.pos >= bp {
+						best, bp = l.cont, l.pos
+					}
+				}
+				return best
+			}
+			ast.Inspect(lit.Body, func(x ast.Node) bool {
+				switch y := x.(type) {
+				case *ast.CallExpr:
+					if id, ok := ast.Unparen(y.Fun).(*ast.Ident); ok && id.Name == "delete" && len(y.Args) == 2 && keyedByHash(y.Args[1]) {
+						if r := rootObj(info, y.Args[0]); r != nil {
+							removed[r] = true
+						}
+					}
+					if se, ok := ast.Unparen(y.Fun).(*ast.SelectorExpr); ok && len(y.Args) >= 1 && keyedByHash(y.Args[0]) {
+						if r := rootObj(info, se.X); r != nil && (se.Sel.Name == "Remove" || se.Sel.Name == "Delete") {
+							removed[r] = true
+						}
+					}
+				case *ast.AssignStmt:
+					for _, l := range y.Lhs {
+						if ix, ok := ast.Unparen(l).(*ast.IndexExpr); ok && keyedByHash(ix.Index) {
+							if r := rootObj(info, ix.X); r != nil {
+								inserted[r] = true
+							}
+						}
+					}
+					// v, ok := C.TryGet(n.Hash()) / _, ok := m[n.Hash()]
+					if len(y.Rhs) == 1 {
+						var cont types.Object
+						switch r := ast.Unparen(y.Rhs[0]).(type) {
+						case *ast.CallExpr:
+							if se, ok := ast.Unparen(r.Fun).(*ast.SelectorExpr); ok && len(r.Args) >= 1 && keyedByHash(r.Args[0]) {
+								cont = rootObj(info, se.X)
+							}
+						case *ast.IndexExpr:
+							if keyedByHash(r.Index) {
+								cont = rootObj(info, r.X)
+							}
+						}
+						if cont != nil {
+							for _, l := range y.Lhs {
+								if id, ok := l.(*ast.Ident); ok && id.Name != "_" {
+									if t := info.TypeOf(id); t != nil && isBoolType(t) {
+										lookups = append(lookups, lookup{y.Pos(), info.ObjectOf(id), cont})
+									}
+								}
+							}
+						}
+					}
+				}
+				return true
+			})
+			if len(removed) == 0 {
+				continue
+			}
+			// panics and the lookups their enclosing conditions (and init statements) consult
+			var stack []ast.Node
+			k := 0
+			ast.Inspect(lit.Body, func(x ast.Node) bool {
+				if x == nil {
+					stack = stack[:len(stack)-1]
+					return true
+				}
+				stack = append(stack, x)
+				call, ok := x.(*ast.CallExpr)
+				if !ok {
+					return true
+				}
+				if id, ok := ast.Unparen(call.Fun).(*ast.Ident); !ok || id.Name != "panic" {
+					return true
+				}
+				n++
+				k++
+				key := fmt.Sprintf("%s.callback-panic#%d", FuncKey(fd.Obj), k)
+				// an `ok` re-assigned between the enclosing ifs is resolved positionally: the latest lookup before each if
+				conts := map[types.Object]bool{}
+				consult := func(e ast.Node) {
+					ast.Inspect(e, func(z ast.Node) bool {
+						switch w := z.(type) {
+						case *ast.Ident:
+							if co := lookupAt(info.ObjectOf(w), w.Pos()); co != nil {
+								conts[co] = true
+							}
+						case *ast.IndexExpr:
+							if keyedByHash(w.Index) {
+								if r := rootObj(info, w.X); r != nil {
+									conts[r] = true
+								}
+							}
+						case *ast.CallExpr:
+							if se, ok := ast.Unparen(w.Fun).(*ast.SelectorExpr); ok && len(w.Args) >= 1 && keyedByHash(w.Args[0]) {
+								if r := rootObj(info, se.X); r != nil {
+									conts[r] = true
+								}
+							}
+						}
+						return true
+					})
+				}
+				for _, a := range stack {
+					if is, ok := a.(*ast.IfStmt); ok {
+						consult(is.Cond)
+						if is.Init != nil {
+							consult(is.Init)
+						}
+					}
+				}
+				// an earlier statement of an enclosing body that leaves the callback when a lookup succeeds
+				// (`if _, ok = seen[h]; ok { return false }`) conditions what follows it as well
+				for _, a := range stack {
+					var list []ast.Stmt
+					switch b := a.(type) {
+					case *ast.BlockStmt:
+						list = b.List
+					}
+					for _, st := range list {
+						if is, ok := st.(*ast.IfStmt); ok && is.End() <= call.Pos() && dropsBlock(is.Body) {
+							consult(is.Cond)
+							if is.Init != nil {
+								consult(is.Init)
+							}
+						}
+					}
+				}
+				onlyRemoved := len(conts) > 0
+				second := false
+				for co := range conts {
+					if !removed[co] {
+						onlyRemoved = false
+					}
+					if inserted[co] && !removed[co] {
+						second = true
+					}
+				}
+				switch {
+				case len(conts) == 0:
+					c.OK(key, c.P.Pos(call.Pos()), "panic not conditioned on a hash lookup")
+				case onlyRemoved && !second:
+					c.Fail(key, c.P.Pos(call.Pos()), fmt.Sprintf("the Traverse callback in %s removes the node's hash from a container when it meets the node and panics when a later node's hash is not found there: two occurrences of one hash (leaves with equal values under one branch, equal subtrees) are valid data, so a node restarted in the middle of a state synchronisation panics on every start", FuncKey(fd.Obj)))
+				default:
+					c.OK(key, c.P.Pos(call.Pos()), "the not-found panic is also conditioned on the hash being absent from the set of hashes already processed")
+				}
+				return true
+			})
+		}
+	}
+	c.Floor("panics inside Billet.Traverse callbacks that remove by hash", n, 1)
 }
